@@ -65,6 +65,7 @@ BOXES = {
     "B_dec": [(-0.1, 0.2), (1000.1, 1000.4)],
     "B_3d": [(-1.0, 1.0), (-1.0, 1.0), (-1.0, 1.0)],
     "B_zero": [(0.0, 5.0), (-5.0, 0.0)],  # bounds that are exactly zero
+    "B_6d": [(-2.0, 3.0)] * 6,
 }
 
 ROOTS = ["SEA", "SEAX", "GA", "SEAA", "MWEA", "DE", "DEd", "SHADE", "LHS", "SOB"]
